@@ -20,6 +20,20 @@ else
 fi
 AC=$(go list $MODFLAG -m -f '{{.Dir}}' github.com/artela-network/aspect-core)
 GOROOT_DIR=$(go env GOROOT)
+# The export file reads private fields of the recorder. If /repo changed their representation, the primary variant
+# stops compiling; the reflective fallback is used instead (checks see vm.VerifDegraded and say so in their evidence).
+EXPORT="$V/overlays/vm_export.go.txt"
+pick_export() {
+  mkdir -p "$V/build/probe"
+  echo "{\"Replace\":{\"$R/vm/zz_verif_export.go\":\"$V/overlays/vm_export.go.txt\"}}" > "$V/build/probe/overlay.json"
+  if ! go build $MODFLAG -tags verif -overlay "$V/build/probe/overlay.json" -o /dev/null github.com/artela-network/artela-evm/vm > "$V/build/probe/full.log" 2>&1; then
+    if grep -q "vm_export.go.txt" "$V/build/probe/full.log"; then
+      echo "build.sh: the primary export overlay does not compile against $R/vm; using the reflective fallback" >&2
+      EXPORT="$V/overlays/vm_export_min.go.txt"
+    fi
+  fi
+}
+pick_export
 mk_overlay() { # $1 = output, $2 = with map hook
   {
     echo '{"Replace":{'
@@ -27,7 +41,7 @@ mk_overlay() { # $1 = output, $2 = with map hook
     if [ "$2" = 1 ]; then
       echo "\"$GOROOT_DIR/src/runtime/map.go\":\"$V/build/runtime_map_hooked.go\","
     fi
-    echo "\"$R/vm/zz_verif_export.go\":\"$V/overlays/vm_export.go.txt\""
+    echo "\"$R/vm/zz_verif_export.go\":\"$EXPORT\""
     echo '}}'
   } > "$1"
 }
@@ -45,7 +59,7 @@ for t in "${targets[@]}"; do
       # the real Aspect runner (no runner stub): conformance of the stub's answer table against aspect-runtime/wasmtime
       {
         echo '{"Replace":{'
-        echo "\"$R/vm/zz_verif_export.go\":\"$V/overlays/vm_export.go.txt\""
+        echo "\"$R/vm/zz_verif_export.go\":\"$EXPORT\""
         echo '}}'
       } > "$V/build/overlay-real.json"
       go build $MODFLAG -tags verif,realrunner -overlay "$V/build/overlay-real.json" -o "$V/build/vcheck-real" ./cmd/vcheck ;;
